@@ -162,14 +162,15 @@ class Gen:
         self.rng = rng
         self.tier = tier
         self.cases = []
-        self.dist = {}
+        self.late = []      # cases that kill the child when a count check is broken: run last, so that a
+        self.dist = {}      # dead child costs one shard and the milder neighbours are all judged
 
-    def add(self, kind, line):
-        self.cases.append(line)
+    def add(self, kind, line, late=False):
+        (self.late if late else self.cases).append(line)
         self.dist[kind] = self.dist.get(kind, 0) + 1
 
-    def dump(self, kind, b):
-        self.add(kind, hexcase(b))
+    def dump(self, kind, b, late=False):
+        self.add(kind, hexcase(b), late)
 
     # ------------------------------------------------------------- exhaustive blocks
     def exhaustive(self):
@@ -224,23 +225,39 @@ class Gen:
                 for n in (0, 1, 2, 3):
                     ents = [bytes(rng.below(256) for _ in range(esz)) for _ in range(n)]
                     for pad in (b"", b"\0\0\0\0", b"\0", b"\0" * 8, b"\0" * 5):
-                        for cnt in sorted({0, 1, n, n + 1, max(0, n - 1), (1 << 32) // esz, (1 << 32) // esz + 1, 1 << 31, (1 << 32) - 1, (1 << 64) // esz & 0xffffffff}):
+                        for cnt in sorted({0, 1, n, n + 1, max(0, n - 1), 1 << 16, 1 << 24, (1 << 32) // esz, (1 << 32) // esz + 1, 1 << 31, (1 << 32) - 1, (1 << 64) // esz & 0xffffffff}):
                             d = Dump(be, ndir=2)
                             d.stream(ST["system_info"], d.sysinfo(9))
                             d.stream(ST[name], d.list(ents, count=cnt, pad=pad))
-                            self.dump("list_count_padding", d.finish())
-            exspecs = [("memory_info", 48, 16, True), ("thread_info", 64, 12, False), ("unloaded", 24, 12, False)]
+                            self.dump("list_count_padding", d.finish(), late=cnt >= 1 << 28)
+            # every list header with an explicit entry size: header size x entry size x count, each from
+            # {0, 1, struct-1, struct, struct+1, huge} (+ the honest / off-by-one / "large but allocatable" counts),
+            # so that two or three header fields are wrong at once
+            exspecs = [("memory_info", 48, 16, True), ("thread_info", 64, 12, False), ("unloaded", 24, 12, False),
+                       ("handle", 40, 16, False), ("handle", 32, 16, False)]
             for name, esz, hdr, wide in exspecs:
-                for n in (0, 1, 2):
-                    nm_dump = Dump(be, ndir=1)
-                    for h in sorted({0, 4, 8, 11, 12, 13, 16, 20, hdr, hdr + esz, 1 << 31, (1 << 32) - 1}):
+                for n in (0, 2):
+                    for h in sorted({0, 1, hdr - 1, hdr, hdr + 1, hdr + esz, (1 << 32) - 1}):
                         for es in sorted({0, 1, esz - 1, esz, esz + 1, (1 << 32) - 1}):
-                            for cnt in sorted({0, n, n + 1, 1 << 31, (1 << 32) - 1}):
+                            for cnt in sorted({0, 1, n, n + 1, 1 << 16, 1 << 24, (1 << 32) - 1}):
                                 d = Dump(be, ndir=1)
                                 nm = d.utf16("u.dll")
-                                ents = [(d.u64(0x1000 * (i + 1)) + d.u32(0x100, 0, 0, nm) if name == "unloaded" else bytes(rng.below(256) for _ in range(esz))) for i in range(n)]
+                                if name == "unloaded":
+                                    ents = [d.u64(0x1000 * (i + 1)) + d.u32(0x100, 0, 0, nm) for i in range(n)]
+                                elif name == "handle":
+                                    ents = [d.handle(4 * i, nm, 0, 0 if esz == 40 else None) for i in range(n)]
+                                else:
+                                    ents = [bytes(rng.below(256) for _ in range(esz)) for i in range(n)]
                                 d.stream(ST[name], d.exlist(ents, es, hdr=h, count=cnt, wide=wide))
-                                self.dump("exlist_header", d.finish())
+                                self.dump("list_header_product", d.finish(), late=cnt >= 1 << 31)
+            # Memory64: u64 count x base rva x trailing bytes (the size must match exactly)
+            for n in (0, 2):
+                for cnt in sorted({0, 1, n, n + 1, 1 << 16, 1 << 28, (1 << 60), (1 << 64) // 16, (1 << 64) - 1}):
+                    for tail in (0, 1, 15, 16):
+                        d = Dump(be, ndir=1)
+                        pay = d.add(bytes(32))
+                        d.stream(ST["memory64"], d.u64(cnt, pay) + b"".join(d.u64(0x1000 * i, 16) for i in range(n)) + bytes(tail))
+                        self.dump("list_header_product", d.finish(), late=cnt >= 1 << 28)
         for _ in range(nrand):
             be = rng.chance(1, 3)
             d = Dump(be, ndir=6)
@@ -579,7 +596,7 @@ class Gen:
         for be in (False, True):
             for kind in kinds:
                 for where in ("simple", "mod_list", "mod_dict_key", "mod_dict_val", "obj_name", "obj_val_str", "obj_val_other"):
-                    for cnt_mode in ("exact", "plus1", "huge"):
+                    for cnt_mode in ("exact", "plus1", "large", "huge"):
                         d = Dump(be, ndir=2)
 
                         def s8(b, length=None, term=b"\0"):
@@ -590,7 +607,7 @@ class Gen:
                              "rva_past_end": 0xfffffff0, "empty_at_eof": 0xffffffff}[kind]
 
                         def cnt(n):
-                            return {"exact": n, "plus1": n + 1, "huge": 0xffffffff}[cnt_mode]
+                            return {"exact": n, "plus1": n + 1, "large": 1 << 16, "huge": 0xffffffff}[cnt_mode]
                         xs = x
                         simple = d.u32(cnt(2)) + d.u32(good, good2) + d.u32(xs if where == "simple" else good, good2)
                         lst = d.u32(cnt(2)) + d.u32(good, xs if where == "mod_list" else good2)
@@ -733,7 +750,7 @@ class C01(PropBase):
         g.round2(400 if q else 5000)
         g.synth_and_samples(700 if q else 8000, 160 if q else 2500)
         g.random_bytes(200 if q else 3000)
-        return g.cases, g.dist, False
+        return g.cases + g.late, g.dist, False
 
     # ---------------------------------------------------------------- canonical forms
     @staticmethod
